@@ -32,13 +32,32 @@ pub fn check(v: &View, vd: &mut Verdict) {
         }
     }
     let count_at = |a: usize, s: u64| timeline[a].range(..=s).next_back().map(|(_, c)| *c).unwrap_or(0);
+    // the service registry is a strong holder too: from a successful set-up registration until the
+    // first operation that may change the entry (or the harness unregistering everything at teardown)
+    let registry_until = |a: usize| -> u64 {
+        let Some(slot) = v.rt[a].slot else { return 0 };
+        if !matches!(v.case.actors[slot].spawn, SpawnSpec::Register { .. }) {
+            return 0;
+        }
+        if !v.hist.iter().any(|e| matches!(&e.kind, EvKind::Note(s) if s == &format!("setup-register actor={slot} ok=true"))) {
+            return 0;
+        }
+        let kind = v.rt[a].kind;
+        v.ops
+            .iter()
+            .filter(|o| matches!(o.what, OpWhat::Reg(RegOp::Register | RegOp::Replace | RegOp::Unregister, k) if k == kind))
+            .map(|o| o.begin)
+            .min()
+            .unwrap_or(u64::MAX)
+            .min(teardown)
+    };
     let mut nt = false;
     for a in 0..n {
         let av = &v.actors[a];
         if av.spawned.is_none() || v.rt[a].origin == Origin::Phantom {
             continue;
         }
-        let hidden_holder = v.rt[a].origin != Origin::Setup || v.case.actors.iter().any(|s| s.peer == Some(a));
+        let hidden_holder = v.rt[a].origin != Origin::Setup || v.case.actors.iter().any(|s| s.peer == Some(a)) || registry_until(a) > 0;
         let stop_requested = !av.stop_reqs.is_empty() || !av.ctx_stops.is_empty()
             || v.hist.iter().any(|e| matches!(&e.kind, EvKind::CtxOp { actor, op: CtxOpKind::Stop, .. } if *actor == a));
         // (a) never stops while a strong handle exists (and nobody asked it to)
@@ -50,6 +69,15 @@ pub fn check(v: &View, vd: &mut Verdict) {
                     "C05/stopped_while_strong",
                     format!("actor {a}: ended at {s} although {} strong handles existed and nobody had requested a stop", count_at(a, s)),
                 );
+            }
+            if !stop_requested && s < registry_until(a) {
+                vd.fail(
+                    "C05/stopped_while_registered",
+                    format!("actor {a}: ended at {s} although it was registered as a service (the registry holds a strong handle until {}) and nobody had requested a stop", registry_until(a)),
+                );
+            }
+            if registry_until(a) > 0 && zero_events[a].iter().any(|z| *z < s.min(registry_until(a))) {
+                vd.class("held_only_by_registry");
             }
         }
         // (b) last strong drop: accepted messages are handled first, then a graceful end
